@@ -398,7 +398,7 @@ func floatPow(a, b Float) (Object, error) {
 	if x == 0 && y < 0 && !math.IsInf(y, 0) {
 		return nil, ExceptionNewf(ZeroDivisionError, "0.0 cannot be raised to a negative power")
 	}
-	if x < 0 && !math.IsInf(x, 0) && !math.IsInf(y, 0) && y != math.Floor(y) {
+	if x < 0 && !math.IsInf(x, 0) && !math.IsInf(y, 0) && !math.IsNaN(y) && y != math.Floor(y) {
 		// negative number to a fractional power has a complex result
 		return Complex(complex(x, 0)).M__pow__(Complex(complex(y, 0)), None)
 	}
